@@ -255,6 +255,12 @@ def run(ctx):
                "woken although the slot reached the version it waits for" % (fn.name, flags), site="%s@wakes" % fn.name)
     ctx.floor("C02.R4f", n4f, 2, "flag-less public slot-moving operations (clear)")
 
+    # ------------------------------------------------------- R4g the entry points without flags sleep and wake (K23, after seed C15-5)
+    QNAMES = ("push", "try_push", "push_n", "try_push_n", "pop", "try_pop", "pop_n", "try_pop_n")
+    n4g = L.flag_forwarding(ctx, "C02.R4g", fb, C01.QUEUE_REC.pattern, QNAMES, ("USE_FUTEX_WAIT", "USE_FUTEX_WAKE"),
+                            "a default push / pop that does not wake leaves the default sleepers of the other side asleep for ever")
+    ctx.floor("C02.R4g", n4g, 16, "forwarded futex flags of push / pop and their try_ / _n variants")
+
     # ------------------------------------------------------- R5d errno reset before the wait (shared with C01.R10)
     C01.errno_discipline(ctx, "C02.R5d", fb)   # conditional: applies where a wait loop tests errno at all
 
